@@ -131,6 +131,13 @@ def _layers_dims(gj):
     return [len(l) for l in layers]
 
 
+def _truthy(case):
+    """the optimize flag as a caller may pass it: the literal True, or another truthy value (numpy bool, int, default left out
+    is covered by the lattice constructors) -- derived from the case so that it is reproducible"""
+    k = sum(ord(c) for c in repr(sorted(case.items()))) % 3
+    return [True, np.bool_(True), 1][k]
+
+
 def impl(case):
     import warnings
     warnings.simplefilter('ignore')
@@ -171,9 +178,9 @@ def impl(case):
             if case['dtype'] == 'complex':
                 t = t + 1j * rs.standard_normal((L, L)); v = v + 1j * rs.standard_normal((L, L, L, L))
             if case['spin']:
-                H = ptn.spin_molecular_hamiltonian_mpo(t, v, optimize=True); R = HR.spin_molecular(t, v); d = 4
+                H = ptn.spin_molecular_hamiltonian_mpo(t, v, optimize=_truthy(case)); R = HR.spin_molecular(t, v); d = 4
             else:
-                H = ptn.molecular_hamiltonian_mpo(t, v, optimize=True); R = HR.molecular(t, v); d = 2
+                H = ptn.molecular_hamiltonian_mpo(t, v, optimize=_truthy(case)); R = HR.molecular(t, v); d = 2
             M = G.mpo_dense(H.A)
             return {'dims': [int(x) for x in H.bond_dims], 'd': d, 'err': float(np.linalg.norm(M - R)) / (1.0 + float(np.linalg.norm(R))),
                     'ranks': HR.schmidt_ranks(R, d, L), 'ranks_mpo': HR.schmidt_ranks(M, d, L)}
